@@ -582,6 +582,13 @@ func (s *service) handleSubscribe(ctx context.Context, peerId string, sub *pubsu
 			s.pruneSpace(sub.SpaceId, si)
 		}
 	}
+	// a frame that added nothing (no topics, everything rejected) must not leave the empty records
+	// created above behind: nothing would ever withdraw them
+	if len(spacePatterns) == 0 {
+		delete(strm.bySpace, sub.SpaceId)
+	}
+	s.pruneStream(streamId, strm)
+	s.pruneSpace(sub.SpaceId, si)
 	s.remoteMu.Unlock()
 
 	if len(rejected) > 0 {
